@@ -265,7 +265,21 @@ pub fn judge(c: &WsCase, ev: &mut Local) -> Result<(), Fail> {
     if c.raw_read_sizes.is_some() {
         ev.class("raw-reads");
     }
-    if spans || interleaved {
+    // longest run of consecutive messages that carry no data
+    let mut longest = 0;
+    let mut cur = 0;
+    for m in &c.messages {
+        if matches!(m, Msg::Binary(b) if !b.is_empty()) {
+            cur = 0;
+        } else {
+            cur += 1;
+            longest = longest.max(cur);
+        }
+    }
+    if longest >= 100 {
+        ev.class("a run of 100 or more messages without data");
+    }
+    if spans || interleaved || longest >= 100 {
         ev.nontrivial(&format!("{c:?}"));
     }
     ev.max("payload-bytes", bytes.len() as u64);
@@ -367,6 +381,41 @@ pub fn ws_strategy() -> impl Strategy<Value = WsCase> {
             }
             WsCase { messages, writes: writes.iter().map(|f| frame_bytes(f, &MODE)).collect(), raw_read_sizes }
         })
+}
+
+/// long runs of messages that carry no data (pings, pongs, text, empty binary) between - or inside - the frames: a peer may send
+/// any number of them, and all of them may be waiting when the connection is polled
+pub fn ws_ignored_run_strategy() -> impl Strategy<Value = WsCase> {
+    let other = prop_oneof![
+        "[ -~]{0,12}".prop_map(Msg::Text),
+        proptest::collection::vec(any::<u8>(), 0..8).prop_map(Msg::Ping),
+        proptest::collection::vec(any::<u8>(), 0..8).prop_map(Msg::Pong),
+        Just(Msg::Binary(vec![])),
+    ];
+    let run = (prop_oneof![1usize..40, 100usize..300, 300usize..1500, Just(127usize), Just(128), Just(255), Just(256), Just(1024)], proptest::collection::vec(other, 1..4), any::<prop::sample::Index>());
+    (proptest::collection::vec(frame_strategy(1, 1), 1..8), proptest::collection::vec(run, 1..3), any::<bool>()).prop_map(|(frames, runs, inside)| {
+        let mut stream = vec![];
+        for f in &frames {
+            stream.extend_from_slice(&frame_bytes(f, &MODE));
+        }
+        // message boundaries: at the frame boundaries, or (inside) two bytes into each frame
+        let mut messages: Vec<Msg> = vec![];
+        let b = boundaries(&stream, &MODE);
+        let mut last = 0;
+        for &e in b.iter().chain(std::iter::once(&stream.len())) {
+            let e = if inside && e + 2 <= stream.len() { e + 2 } else { e };
+            if e > last {
+                messages.push(Msg::Binary(stream[last..e].to_vec()));
+                last = e;
+            }
+        }
+        for (n, kinds, at) in runs {
+            let at = at.index(messages.len() + 1);
+            let items: Vec<Msg> = (0..n).map(|i| kinds[i % kinds.len()].clone()).collect();
+            messages.splice(at..at, items);
+        }
+        WsCase { messages, writes: vec![], raw_read_sizes: None }
+    })
 }
 
 /// bursts: 20..200 KB of small frames in one to three binary messages (a single message far beyond every buffer involved)
@@ -695,6 +744,9 @@ pub fn run(run: &mut Run) {
     run.max_shrink_iters = std::env::var("VP_SHRINK").ok().and_then(|s| s.parse().ok()).unwrap_or(300);
     let n = run.budget(600, 20_000);
     run.prop(&WsSessions, ws_strategy(), n);
+    // long runs of messages without data
+    let n = run.budget(200, 6_000);
+    run.prop(&WsSessions, ws_ignored_run_strategy(), n);
     // bursts: single messages of up to 200 KB
     run.max_shrink_iters = 8;
     let n = run.budget(16, 300);
